@@ -21,8 +21,16 @@ FILES = {"zz_verif_common_test.go": "c04/common_driver_test.go",
 # form tcp = *net.TCPAddr holding a 16-byte net.IP (what a dual-stack listener yields; an IPv4 peer is
 # then ::ffff:a.b.c.d), tcp4 = 4-byte net.IP, udp = *net.UDPAddr, str = any other net.Addr whose String()
 # is host:port.  "" = the drivers' historical default 198.51.100.7 (16-byte form).
-PEERS = [("", ""), ("tcp", "V6"), ("tcp4", "198.51.100.9"), ("tcp", "fd00::9:1"), ("udp", "V6"), ("tcp", "::ffff:203.0.113.5"),
+PEERS = [("", ""), ("tcp", "V6"), ("tcp", "ZONED"), ("tcp4", "198.51.100.9"), ("tcp", "fd00::9:1"), ("udp", "ZONED"), ("udp", "V6"), ("tcp", "::ffff:203.0.113.5"),
          ("str", "V6"), ("tcp", "::1"), ("str", "192.0.2.44"), ("tcp", "V6"), ("udp", "203.0.113.77")]
+
+
+# scoped (link-local, fe80::/10) peers: the address object carries a Zone (interface name or index) next to the IP
+ZONES = ["eth0", "lo", "1", "enp3s0f1", "wlan0.100"]
+
+
+def peer_is_zoned(ip):
+    return "%" in (ip or "")
 
 
 def peer_is_v6(ip):
@@ -91,7 +99,15 @@ def gen_cases(ctx, table, scale):
         form, ip = PEERS[k % len(PEERS)]
         if ip == "V6":   # a random global IPv6 source address
             ip = "2001:db8:%x:%x::%x" % (rng.randrange(1, 0xffff), rng.randrange(0, 0xffff), rng.randrange(1, 0xffff))
+        if ip == "ZONED":
+            ip = zoned()
         return form, ip
+
+    nz = [0]
+
+    def zoned():
+        nz[0] += 1
+        return "fe80::%x:%x:%x%%%s" % (rng.randrange(1, 0xffff), rng.randrange(0, 0xffff), rng.randrange(1, 0xffff), ZONES[nz[0] % len(ZONES)])
 
     def mk(kind, parts, regs=None, ch=None, hint=100, fin_ms=0, fin_rst=False):
         if regs is None:
@@ -218,6 +234,11 @@ def gen_cases(ctx, table, scale):
         c = copy.deepcopy([x for x in cases if x["kind"] == kind][0])
         c["peer_form"], c["peer"] = peer_for(kind)
         cases.append(c)
+    # ... and a zoned link-local peer (TCP and UDP address objects in turn)
+    for kind in [k for k in perkind if k != "nonip" and not any(peer_is_zoned(x["peer"]) for x in cases if x["kind"] == k)]:
+        c = copy.deepcopy([x for x in cases if x["kind"] == kind][0])
+        c["peer_form"], c["peer"] = ("udp" if nz[0] % 3 == 2 else "tcp"), zoned()
+        cases.append(c)
     return cases
 
 
@@ -254,7 +275,9 @@ def judge(ctx, c, r, Ds):
     """the property's own statement on the observables of one probe (not for probes that carry a valid tag)"""
     kind, regs = c["kind"], c.get("regs_name", "?")
     key = "%s/%s" % (kind, regs)
-    if peer_is_v6(c.get("peer") or ""):
+    if peer_is_zoned(c.get("peer")):
+        key += "@peer-zoned"
+    elif peer_is_v6(c.get("peer") or ""):
         key += "@peer-v6"
     brief = {"kind": kind, "regs": regs, "peer": r.get("remote"), "phantom_v6": r.get("v6"), "case": c, "parts": r.get("parts"), "script": r.get("script"),
              "observed": {k: r.get(k) for k in ("set_deadline", "writes", "closes", "returned", "max_lag", "unread", "panic")}}
@@ -336,7 +359,7 @@ def probe_term(r, c=None):
         conn, glist(r.get("script") or [], lambda x: "(%s, %s)" % (gN(x[0]), gN(x[1]))), gN(D), gN(sum(reads)), gbool(quiet), gbool(slept),
         fin, gbool(last in ("eof", "rst")))
     at_once = not sd and not allreads and r.get("returned", -1) >= 0
-    return "(%s, Build_probe_addr %s %s %s)" % (q, raddr_term((c or {}).get("peer_form"), r.get("remote_len", 16), r.get("remote_ip") or ""),
+    return "(%s, Build_probe_addr %s %s %s)" % (q, raddr_term((c or {}).get("peer_form"), r.get("remote_len", 16), r.get("remote_ip") or "", r.get("remote_zone") or ""),
                                              gbytes(bytes.fromhex(r.get("phantom") or "")), gbool(at_once))
 
 
@@ -344,11 +367,11 @@ def gbytes(b):
     return "[%s]%%N" % "; ".join(str(x) for x in b) if b else "(@nil N)"
 
 
-def raddr_term(form, iplen, iphex):
+def raddr_term(form, iplen, iphex, zone=""):
     ip = bytes.fromhex(iphex)
     if form == "str":
         return "(ROther %s)" % ("(Some %s)" % gbytes(ip) if ip else "None")
-    return "(%s %s)" % ("RUdp" if form == "udp" else "RTcp", gbytes(ip))
+    return "(%s %s %s)" % ("RUdp" if form == "udp" else "RTcp", gbytes(ip), gbytes(zone.encode()))
 
 
 def header(table):
@@ -384,6 +407,7 @@ def gen_hists(ctx, scale):
         return hs
     hists = []
     srcn = [0]
+    zn = [0]
     geos = [("DE", 64501), ("FR", 64502), ("US", 64500), ("", 64503), ("unk", 64504), ("BR", 64501)]
 
     def conn(kind, at, geo=None, phantom=None, peer=None, t_end=None, first=150, mid=None):
@@ -396,13 +420,16 @@ def gen_hists(ctx, scale):
         c["cc"], c["asn"] = cc, asn
         # the peer's source address: distinct loopback addresses (127.x.y.z), the IPv6 loopback, or - reported
         # through RemoteAddr() on top of the real socket - a global IPv6 / 4-byte IPv4 / UDP / string address
-        style = peer if peer is not None else k % 5
+        style = 2 if peer == 5 else (peer if peer is not None else k % 5)
         c["src"] = "127.%d.%d.%d" % (1 + (k >> 16) % 100, (k >> 8) & 255, k & 255)
         if style == 1:
             c["src"] = "::1"
             c["peer"], c["peer_form"] = "2001:db8:%x::%x" % (rng.randrange(1, 0xffff), k), "tcp"   # ::1 is one address: tell the peers apart
         elif style == 2:
             c["peer"], c["peer_form"] = "2001:db8:%x:%x::%x" % (rng.randrange(1, 0xffff), rng.randrange(0, 0xffff), k), rng.choice(["tcp", "udp", "str"])
+            zn[0] += 1
+            if zn[0] % 2 == 0 or peer == 5:   # a scoped link-local peer: the address object carries a Zone
+                c["peer"], c["peer_form"] = "fe80::%x:%x%%%s" % (rng.randrange(1, 0xffff), k, ZONES[zn[0] // 2 % len(ZONES)]), ("udp" if zn[0] % 6 == 0 else "tcp")
         elif style == 3:
             c["peer"], c["peer_form"] = "203.0.%d.%d" % ((k >> 8) & 255, k & 255), rng.choice(["tcp", "tcp4"])
         elif style == 4:
@@ -465,6 +492,25 @@ def gen_hists(ctx, scale):
                 eps += sorted(rng.randrange(5000, 10500) for _ in range(3))
             hists.append({"class": "mix", "epochs": eps, "hammer": False,
                           "conns": [conn(k, rng.randrange(0, 1800), t_end=rng.randrange(300, 4400), first=rng.randrange(50, 400)) for k in ks]})
+        # the station's lifecycle: configuration reloads (the real RegistrationManager.OnReload) between the connections,
+        # with GeoIP database paths that are not configured / point to no file / point to a file of garbage; connections
+        # opened before a reload are still being classified when it happens, others arrive after it
+        bad = ["missing", "corrupt"]
+        plans = [[{"asn_db": "", "cc_db": "corrupt"}], [{"asn_db": "missing", "cc_db": ""}],
+                 [{"asn_db": "", "cc_db": ""}, {"asn_db": "corrupt", "cc_db": "corrupt"}],
+                 [{"nil": True}, {"asn_db": "corrupt", "cc_db": "missing"}, {"nil": True}],
+                 [{"asn_db": rng.choice(["", "missing", "corrupt"]), "cc_db": rng.choice(bad)}, {"asn_db": rng.choice(bad), "cc_db": rng.choice(["", "missing", "corrupt"])},
+                  {"nil": rng.random() < 0.5, "asn_db": "", "cc_db": ""}]]
+        for j, plan in enumerate(plans):
+            rl, conns, t = [], [], 0
+            conns.append(conn("silent-timeout", 0, geo=geos[j % 3]))
+            conns.append(conn(rng.choice(["data-timeout", "noregs-data-timeout"]), rng.randrange(20, 120), peer=5 if j % 2 else None))
+            for r in plan:
+                t += rng.randrange(450, 650)
+                rl.append(dict({"at_ms": t, "nil": False, "asn_db": "", "cc_db": ""}, **r))
+                conns.append(conn(rng.choice(["silent-timeout", "silent-fin", "data-timeout"]), t + rng.randrange(150, 220), t_end=rng.randrange(700, 1500)))
+                conns.append(conn(rng.choice(["data-rst", "noregs-timeout", "exhaust-timeout", "data-fin"]), t + rng.randrange(230, 300), t_end=rng.randrange(700, 1500)))
+            hists.append({"class": "reload", "conns": conns, "epochs": [t + 400, t + 2500], "hammer": False, "reloads": rl})
         # unsynchronised epochs every 2 ms while connections of every kind are open
         for j in range(2):
             ks = list(HKINDS) if j == 0 else [rng.choice(list(HKINDS)) for _ in range(8)]
@@ -484,6 +530,15 @@ def hist_situations(h, hr):
     epochs = [i for i, e in enumerate(hr["events"]) if e["ev"] == "epoch"]
     for i, e in enumerate(hr["events"]):
         c = e["conn"]
+        if e["ev"] == "reload":
+            r = e.get("reload") or {}
+            dbs = "nil-config" if r.get("nil") else "/".join(sorted(set([r.get("asn_db") or "absent", r.get("cc_db") or "absent"])))
+            opened = sum(1 for x in hr["events"][:i] if x["ev"] == "open")
+            ended = sum(1 for x in hr["events"][:i] if x["ev"] == "err")
+            out.append("sit:reload/%s/%s" % (dbs, {0: "nil", 1: "empty-db", 2: "db-kept"}.get(e.get("geo_kind"), "?")))
+            if opened > ended and opened < len(h["conns"]):
+                out.append("sit:reload/with-open-connections-and-later-ones")
+            continue
         if e["ev"] == "open":
             last[c], nread[c] = i, 0
             continue
@@ -515,7 +570,7 @@ def judge_hist(ctx, h, hr, Ds):
 
     def brief(i=None):
         b = {"hist": h, "class": cls,
-             "events": [{k: v for k, v in e.items() if k in ("ev", "conn", "n", "kind", "at_ms", "quiesced") and v not in (None, "")}
+             "events": [{k: v for k, v in e.items() if k in ("ev", "conn", "n", "kind", "at_ms", "quiesced", "reload", "geo_kind") and v not in (None, "")}
                         for e in hr["events"]][:60]}
         if i is not None:
             b["conn"] = i
@@ -543,6 +598,9 @@ def judge_hist(ctx, h, hr, Ds):
                     "/".join(str(v["ms_before_its_deadline"]) for v in victims[:4])), b)
         bad = True
     for e in hr["events"]:
+        if e.get("reload_panic"):
+            ctx.fail("hist/%s:reload-panic" % cls, "RegistrationManager.OnReload panicked: %s" % e["reload_panic"][:200], brief())
+            bad = True
         if e.get("epoch_panic"):
             ctx.fail("hist/%s:epoch-panic" % cls, "connStats.PrintAndReset panicked: %s" % e["epoch_panic"][:200], brief())
             bad = True
@@ -557,7 +615,9 @@ def judge_hist(ctx, h, hr, Ds):
         if tagged or c.get("panic"):
             continue
         key = "hist/%s/%s" % (cls, spec["kind"])
-        if peer_is_v6(c.get("remote_ip") or ""):
+        if peer_is_zoned(c.get("remote")):
+            key += "@peer-zoned"
+        elif peer_is_v6(c.get("remote_ip") or ""):
             key += "@peer-v6"
         n0 = ctx.cov["oracle_failures"]
         sd = [x for x in (c.get("set_deadline") or []) if x[1] > 0]
@@ -646,10 +706,15 @@ def hist_term(h, hr, ts):
                 evs.append("RRead2 %s %s" % (gN(r["conn"]), glist(r.get("calls") or [], lambda cl: "(%s, %s)" % (gN(ts.index(cl["t"])), gN(ANSWER.get(cl["res"], 3))))))
     if any(c.get("panic") for c in hr["conns"]):
         exact = exact   # a recovered panic leaves the counters half updated: the comparison is expected to fail, the oracle has the case
-    return "(Build_hist_case %s %s %s)" % (glist(evs, lambda x: "(%s)" % x), snap_term(hr["final"]), gbool(exact))
+    def dbf(x):
+        return {"": "FAbsent", "missing": "FMissing", "corrupt": "FCorrupt"}[x or ""]
+    rls = [("None" if e["reload"].get("nil") else "(Some (Build_dbconf %s %s))" % (dbf(e["reload"].get("asn_db")), dbf(e["reload"].get("cc_db"))), e.get("geo_kind", 9))
+           for e in events if e["ev"] == "reload"]
+    return "(Build_hist_case %s %s %s %s)" % (glist(evs, lambda x: "(%s)" % x), snap_term(hr["final"]), gbool(exact),
+                                              glist(rls, lambda x: "(%s, %s)" % (x[0], gN(x[1]))))
 
 
-HHEADER = "From CJ Require Import Common.Base C03.StatsModel C03.ConnModel C03.Run.\n"
+HHEADER = "From CJ Require Import Common.Base C03.StatsModel C03.ConnModel C03.ReloadModel C03.Run.\n"
 
 
 
@@ -730,7 +795,7 @@ def run(ctx):
             ctx.broken("driver", "probe could not be built: %s" % r["err"], {"case": c})
             continue
         c04.scope_checks(ctx, r)
-        pk = "peer:" + ("nonip" if c.get("peer") == "-" else ("v6" if peer_is_v6(c.get("peer") or "") else "v4")) + "/" + (c.get("peer_form") or "tcp")
+        pk = "peer:" + ("nonip" if c.get("peer") == "-" else ("zoned" if r.get("remote_zone") else ("v6" if peer_is_v6(c.get("peer") or "") else "v4"))) + "/" + (c.get("peer_form") or "tcp")
         ctx.cov["histogram"][pk] = ctx.cov["histogram"].get(pk, 0) + 1
         tagged = presents_tag(r, table)
         judged = tagged is None and c["kind"] != "nonip"
@@ -745,7 +810,7 @@ def run(ctx):
         ctx.count((c["kind"], c.get("regs_name"), c.get("peer_form"), c.get("peer"), tuple(map(tuple, r.get("script") or [])), str(r.get("parts"))[:200]),
                   nontrivial=r.get("returned", -1) >= 0, kind="%s/%s" % (c["kind"], "bad" if bad else "ok"))
         if judged and peer_is_v6(c.get("peer") or ""):
-            k6 = "%s@peer-v6" % c["kind"]
+            k6 = "%s@peer-%s" % (c["kind"], "zoned" if r.get("remote_zone") else "v6")
             ctx.cov["histogram"][k6] = ctx.cov["histogram"].get(k6, 0) + 1
         ctx.cov["histogram"]["regs:" + c.get("regs_name", "?")] = ctx.cov["histogram"].get("regs:" + c.get("regs_name", "?"), 0) + 1
         terms.append(probe_term(r, c))
@@ -766,7 +831,7 @@ def run(ctx):
                 for sname in hist_situations(h, hr):
                     ctx.cov["histogram"][sname] = ctx.cov["histogram"].get(sname, 0) + 1
                 for spec, c in zip(h["conns"], hr["conns"]):
-                    fam = "hist-peer:" + ("v6" if peer_is_v6(c.get("remote_ip") or "") else "v4") + ("/real" if not spec.get("peer") else "/" + spec.get("peer_form", "tcp"))
+                    fam = "hist-peer:" + ("zoned" if peer_is_zoned(c.get("remote")) else "v6" if peer_is_v6(c.get("remote_ip") or "") else "v4") + ("/real" if not spec.get("peer") else "/" + spec.get("peer_form", "tcp"))
                     ctx.cov["histogram"][fam] = ctx.cov["histogram"].get(fam, 0) + 1
                     ctx.count(("hist", h["class"], spec["kind"], spec["cc"], spec["asn"], spec["phantom"], c.get("remote_ip"), tuple(h["epochs"])),
                               nontrivial=c.get("returned", -1) >= 0 or bool(c.get("panic")), kind="hist-conn/%s/%s" % (spec["kind"], "bad" if bad else "ok"))
@@ -798,12 +863,18 @@ def run(ctx):
                            "phantom:v4", "phantom:v6", "drain/ok", "late/ok", "peerclose/ok", "validtag-wrongprefix/ok", "validtag-wrongtransport/ok", "validtag-obfs4-badmac/ok"] + ["regs:" + n for n in REGS]
                           # the peer-address dimension, crossed with the probe classes
                           + ["nonip/ok", "peer:v4/tcp", "peer:v4/tcp4", "peer:v6/tcp", "peer:v6/udp", "peer:v6/str", "peer:v4/str", "peer:v4/udp", "peer:nonip/str"]
+                          + ["peer:zoned/tcp", "peer:zoned/udp"]
+                          + [k + "@peer-zoned" for k in ("random", "lookalike", "static", "flip", "short", "unregistered", "unvalidated", "loworder", "manychunks", "drain", "late", "peerclose", "dribble")]
                           + [k + "@peer-v6" for k in ("random", "lookalike", "static", "flip", "short", "unregistered", "unvalidated", "loworder", "manychunks", "drain", "late", "peerclose")]
                           # the history lane: every way a connection ends, with an epoch between its previous step and its end
                           + ["hist:%s-across-epoch/ok" % k for k in HKINDS] + ["hist:no-epoch/ok", "hist:mix/ok", "hist:hammer/ok"]
                           + ["hist:%s-mid-check-epoch/ok" % k for k in ("data-timeout", "data-fin", "exhaust-timeout", "exhaust-rst", "match")]
                           + ["sit:mid-check/first", "sit:mid-check/later", "hist:geo-error/ok"]
-                          + ["hist-peer:v4/real", "hist-peer:v6/tcp", "hist-peer:v4/tcp4"]
+                          + ["hist-peer:v4/real", "hist-peer:v6/tcp", "hist-peer:v4/tcp4", "hist-peer:zoned/tcp"]
+                          # the lifecycle: reloads between connections, every kind of GeoIP database configuration
+                          + ["hist:reload/ok", "sit:reload/absent/corrupt/db-kept", "sit:reload/absent/missing/db-kept", "sit:reload/absent/empty-db",
+                             "sit:reload/nil-config/empty-db", "sit:reload/corrupt/empty-db", "sit:reload/corrupt/missing/empty-db",
+                             "sit:reload/with-open-connections-and-later-ones"]
                           + ["sit:eof/0B/cc@epoch", "sit:timeout/0B/cc@epoch", "sit:rst/0B/cc@epoch", "sit:eof/data/cc@epoch", "sit:rst/data/cc@epoch",
                              "sit:timeout/data/cc@epoch", "sit:eof/noregs/cc@epoch", "sit:timeout/noregs/cc@epoch", "sit:timeout/drained/cc@epoch",
                              "sit:eof/drained/cc@epoch", "sit:first-read/cc@epoch", "sit:eof/0B/cc", "sit:timeout/0B/nocc@epoch"])
